@@ -212,8 +212,8 @@ static void gen(plan_t *p, rng_t *r)
         if (gdone[s] && k < 60) { gen_constructor(p, r, s, 0, hard, 0); continue; }
         if (k < 14) {
             int os = pick_live(r);
-            if (os == s || rng_chance(r, 1, 20)) os = rng_chance(r, 1, 2) ? -1 : os == s ? (s + 1) % NSLOT : os;
-            if (os == s) os = -1;
+            if (os == s && !rng_chance(r, 1, 3)) os = rng_chance(r, 1, 2) ? -1 : (s + 1) % NSLOT;      /* one time in three the object itself is the argument */
+            else if (rng_chance(r, 1, 20)) os = -1;
             plan_op(p, 0, rng_chance(r, 1, 2) ? "append" : "prepend", 2, (long)s, (long)os);
             if (os >= 0 && gexists[os]) glen[s] += glen[os];
         } else if (k < 24) {
@@ -230,7 +230,7 @@ static void gen(plan_t *p, rng_t *r)
             long idx = gen_index(r, glen[s]), cnt = rng_chance(r, 1, 2) ? (long)rng_below(r, 4) : gen_index(r, glen[s]);
             if (rng_chance(r, 1, 2)) {
                 int os = pick_live(r);
-                if (os == s) os = -1;
+                if (os == s && !rng_chance(r, 1, 3)) os = -1;
                 plan_op(p, 0, "splice", 4, (long)s, idx, cnt, (long)os);
             } else {
                 o = plan_op(p, 0, "splice_ptr", 3, (long)s, idx, cnt);
